@@ -54,14 +54,16 @@ def match_known(fail, known):
 
 
 def run(pid, tier, profile="mixed", own=None, nops=None, streams_per_cfg=None, extra_streams=None,
-        technique_note="", k3_programs=None, tsan_modes=None):
+        technique_note="", k3_programs=None, tsan_modes=None, extra_props=(), phases=()):
     own = own or {pid}
     res = C.Result(pid, tier)
     rng = random.Random(C.seed() * 1000003 + sum(ord(x) for x in pid))
     nops = nops or (500 if tier == "quick" else 4000)
     known = [k for k in C.load_known().get("findings", []) if k.get("property") in own]
     with C.Lock():
-        lean_ok, names = C.lean_phase(res, pid, gen_fn=C.regen_arith)
+        lean_ok, names = C.lean_phase(res, pid, gen_fn=C.regen_arith, extra_props=extra_props)
+    for ph in phases:
+        ph(res, tier)
     cfgs = configs(tier, rng, pid)
     bins = k2.build_all(cfgs + [c for c, _ in (extra_streams or [])])
     for key, (ok, exe, log) in bins.items():
